@@ -196,6 +196,7 @@ pub fn run_fixture(sc: &Scenario, keep: bool) -> Outcome {
         sides: sc.sides.clone(),
         first_byte: [Gate::default(), Gate::default()],
         writer_done: [Gate::default(), Gate::default()],
+        consumed: [Gate::default(), Gate::default()],
         fin_delivered: Default::default(),
         round: Default::default(),
         sleepers: Default::default(),
